@@ -33,6 +33,24 @@ A_RED = [0, -70402, 70410, -1, 12345]
 A_RED2 = [0, -70402, 70410]
 PDU_ALPHA = [1, 2, 3, 4, 5, 6, 256, 257]
 RW, WO, RWT, RO, WT = "pr,pw", "pw", "pr,pw,tw", "pr", "pw,tw"
+# every subset of the three permissions the write paths look at (paired read / paired write / timed write);
+# "ev" stands for "none of the three".  tw WITHOUT pw (writable only through the timed-write procedure) matters.
+PERM_CORE = ["pr,pw", "pw", "pr", "pr,pw,tw", "pw,tw", "pr,tw", "tw", "ev"]
+PERM_DECOR = ["ev", "hd", "aa", "wr"]         # permissions the write paths must ignore
+
+
+def any_perms(r):
+    """a random subset of {pr, pw, tw, ev, hd, aa, wr} (never empty)"""
+    core = [x for x in r.choice(PERM_CORE).split(",") if x != "ev"]
+    extra = [d for d in PERM_DECOR if r.random() < 0.3]
+    out = core + extra
+    r.shuffle(out)
+    return ",".join(out or ["ev"])
+
+
+def perm_class(p):
+    pl = p.split(",")
+    return "+".join(x for x in ("pr", "pw", "tw") if x in pl) or "none"
 LAYOUTS = {
     1: [[(1, 10)], [(2, 10)]],
     2: [[(1, 10), (1, 11)], [(1, 10), (2, 10)]],
@@ -837,7 +855,7 @@ def gen_ipput(tier, r):
         if r.random() < 0.15:
             ids.append(r.choice(ids))
         reqs = [(a, i, r.randrange(1, 200)) for a, i in ids]
-        perms = {ks(k): r.choice([RW, RW, WO, RWT, RO, WT]) for k in ids}
+        perms = {ks(k): (r.choice([RW, RW, WO, RWT, RO, WT]) if r.random() < 0.5 else any_perms(r)) for k in ids}
         code = r.choices(["207", "204", "207empty", "nolist"], [85, 9, 3, 3])[0]
         es = []
         if code == "207":
@@ -953,14 +971,14 @@ def gen_coap(tier, r):
             res.append(["B", r.randrange(1, 250)] if r.random() < 0.5 else ["S", r.choice(PDU_ALPHA + ([0] if r.random() < 0.1 else []))])
         reads.append(dict(kind="coapread", src="random", ids=[list(k) for k in ids], results=res))
         reqs = [(a, i, r.randrange(1, 200)) for a, i in ids]
-        perms = {ks(k): r.choice([RW, RW, WO, RWT, RO]) for k in ids}
+        perms = {ks(k): (r.choice([RW, RW, WO, RWT, RO]) if r.random() < 0.5 else any_perms(r)) for k in ids}
         puts.append(dict(kind="coapput", src="random", reqs=reqs, perms=perms, results=res))
     return reads, puts
 
 
 def gen_ble(tier, r):
     cases = []
-    kinds = [RW, WO, RO, RWT, WT]
+    kinds = PERM_CORE
     opts = [(p, s1, s2) for p in kinds for s1 in (0, 3, 6) for s2 in ((0, 6) if "tw" in p else (0,))]
     iids = [10, 11, 12, 13]
     for n in (1, 2):
@@ -970,7 +988,7 @@ def gen_ble(tier, r):
             cases.append(dict(kind="bleput", src="vec", items=items, perms=perms))
     for _ in range(2500 if tier == "quick" else 30000):
         n = r.choice([2, 3, 3, 4, 4])
-        perms = {str(i): r.choice(kinds) for i in iids}
+        perms = {str(i): any_perms(r) for i in iids}
         items = []
         for _ in range(n):
             i = r.choice(iids)
@@ -1029,7 +1047,8 @@ def gen_reactive(tier, r):
         ids = [r.choice(POOL) for _ in range(n)] if r.random() < 0.3 else r.sample(POOL, min(n, len(POOL)))
         table = {ks(k): (0 if r.random() < 0.5 else r.choice(A_FULL)) for k in set(ids)}
         puts.append(dict(kind="ipput-r", src="random", reqs=[(a, i, r.randrange(1, 200)) for a, i in ids],
-                         perms={ks(k): r.choice([RW, RW, WO, RWT, RO, WT]) for k in set(ids)}, table=table))
+                         perms={ks(k): (r.choice([RW, RW, WO, RWT, RO, WT]) if r.random() < 0.5 else any_perms(r))
+                                for k in set(ids)}, table=table))
         gets.append(dict(kind="ipget-r", src="random", req=[list(k) for k in ids],
                          table={k: [s if r.random() < 0.7 else None, 5] if s == 0 else [s, None] for k, s in table.items()}))
     return puts, gets, cputs, creads
@@ -1568,7 +1587,9 @@ def run(ctx):
         judge("bleput", dict(c, requests_sent=[list(x) for x in ble.calls]), res, m, orc)
         cov.case("b" + json.dumps(c, sort_keys=True), bool(c["items"]),
                  sample=dict(stream="bleput", case=c, impl=res) if idx % 1501 == 3 else None,
-                 ble_src=c["src"], ble_items=len(c["items"]), ble_result=res.partition(" ; ")[2].split(" ")[0])
+                 ble_src=c["src"], ble_items=len(c["items"]), ble_result=res.partition(" ; ")[2].split(" ")[0],
+                 ble_perm_classes="|".join(sorted({perm_class(c["perms"][str(it[1])]) for it in c["items"]})),
+                 ble_has_decor=any(d in c["perms"][str(it[1])].split(",") for it in c["items"] for d in PERM_DECOR[1:]))
     loop.close()
 
     # ---- extraction cross-check: a sample of the requests above, re-evaluated with vm_compute inside Coq
